@@ -52,4 +52,7 @@ FamilyN(p) ==
        \/ NamingOK(nm1) /\ p = NProg(nm1)
        \/ \E j \in DOMAIN NSlots : j > i /\ \E n2 \in NPool(NSlots[j]) :
             LET nm2 == [nm1 EXCEPT ![NSlots[j]] = n2] IN NamingOK(nm2) /\ p = NProg(nm2)
+\* the base program with only the package-level variable named (C03 / C04: the error and cleanup variables of the generated
+\* code next to live package-level variables of those names)
+FamilyNVar(p, vs) == \E v \in vs : p = NProg([Base EXCEPT !["var"] = v])
 =============================================================================
